@@ -159,5 +159,22 @@ pub open spec fn set_spec<T: ReactComponent + PartialEq>(old_c: React<T>, new: T
 //@| ensures r == self.resource,
 //@endimpl
 
+// ---- ReactResMut<R>: the system-param wrapper delegates to ReactResInner<R> ------------------------------------------------------
+pub type ResMut<'w, T> = &'w mut T;
+//@struct src/react/react_resource.rs ReactResMut
+//@impl src/react/react_resource.rs impl ReactResMut
+//@fn src/react/react_resource.rs impl ReactResMut get_mut ret=r
+//@| ensures *r == old(self).inner.resource, final(self).inner.resource == *final(r),
+//@|         (*final(c)).log() == (*old(c)).log().push(Queued::ResourceTrigger { res: res_id::<R>() }), *final(*final(c)) == *final(*old(c)),
+//@fn src/react/react_resource.rs impl ReactResMut get_noreact ret=r
+//@| ensures *r == old(self).inner.resource, final(self).inner.resource == *final(r),
+//@fn src/react/react_resource.rs impl ReactResMut set_if_neq ret=r
+//@| requires R::obeys_eq_spec(),
+//@| ensures *final(*final(c)) == *final(*old(c)),
+//@|         new.eq_spec(&old(self).inner.resource) ==> (r is None && final(self).inner.resource == old(self).inner.resource && (*final(c)).log() == (*old(c)).log()),
+//@|         !new.eq_spec(&old(self).inner.resource) ==> (r == Some(old(self).inner.resource) && final(self).inner.resource == new
+//@|             && (*final(c)).log() == (*old(c)).log().push(Queued::ResourceTrigger { res: res_id::<R>() })),
+//@endimpl
+
 } // verus!
 fn main() {}
